@@ -72,6 +72,9 @@ int LLVMFuzzerTestOneInput(const uint8_t *data, size_t size)
   if (sender.s) free(sender.s); sender.s = 0; sender.len = sender.a = 0;
   if (flagmft) { constmap_free(&mapmft); flagmft = 0; }
   flagresent = 0;
+  FZ_FRESH(hfbuf); FZ_FRESH(torecip); FZ_FRESH(envsbuf); FZ_FRESH(defaultfrom); FZ_FRESH(defaultreturnpath); FZ_FRESH(hackedruser);
+  { token822_alloc *tl[] = { &hfin, &hfrewrite, &hfaddr, &tr, &envs, &df, &drp }; unsigned k;
+    for (k = 0; k < sizeof tl / sizeof tl[0]; k++) { if (tl[k]->t) free(tl[k]->t); tl[k]->t = 0; tl[k]->len = 0; tl[k]->a = 0; } }
   subgetoptind = 1; subgetoptpos = 0;
   if (!setjmp(fz_jb)) nqv_inject_main(ac, a); else exited = 1;
   fz_extra[0] += reciplist.len + hrlist.len + hrrlist.len; fz_extra[1] += savedh.len;
